@@ -800,6 +800,21 @@ def handleSpec (name : String) (ins ans : List String) : String :=
         | some h, some hm, some tm => optVerdict (Spec.oracleSigC02 h hm tm (lone == "1") msgs)
         | _, _, _ => "FAIL unparsable"
       | _, _ => "FAIL unparsable"
+    | "c08seq" =>
+      match arg.splitOn ";", parseSigEvs ans with
+      | [rate, txs, spans], some evs =>
+        let sp := if spans == "" then some [] else (spans.splitOn ",").mapM (fun w => match w.splitOn ":" with
+          | [i, r] => (match i.toNat?, (r.splitOn "-").mapM String.toNat? with
+            | some i, some [a, b] => some (i, a, b) | _, _ => none)
+          | _ => none)
+        match rate.toNat?, (txs.splitOn ",").mapM unhex, sp with
+        | some rate, some txs, some sp => optVerdict (Spec.oracleSigC08Seq rate txs sp evs)
+        | _, _, _ => "FAIL unparsable"
+      | _, _ => "FAIL unparsable"
+    | "c05seq" =>
+      match (arg.splitOn ",").mapM unhex, parseSigEvs ans with
+      | some txs, some evs => optVerdict (Spec.oracleSigC05Seq txs evs)
+      | _, _ => "FAIL unparsable"
     | "c05one" =>
       match parseScOuts ans with
       | some msgs => optVerdict (Spec.oracleSigC05One msgs)
